@@ -40,6 +40,7 @@ type Config struct {
 	Password  string `json:"password"`
 	WPIR      bool   `json:"wpir"` // writePermImpliesReadPerm
 	Root      string `json:"root"` // root proposal, default "/"
+	Overwrite bool   `json:"overwrite"` // the drive manager is constructed with overwrite = true (its FIRST writer clears the drive)
 }
 
 var errInjected = errors.New("verif: injected fault")
@@ -333,7 +334,7 @@ func mk(cfg Config, drive, meta, dir string, ks keyset, sm *seams) (*inst, error
 	}
 	in := &inst{cfg: cfg, drive: drive, meta: meta, dir: dir, sm: sm}
 	mt := mtio.MagneticTapeIO{}
-	in.tm = tape.NewTapeManager(drive, mt, cfg.RS, false)
+	in.tm = tape.NewTapeManager(drive, mt, cfg.RS, cfg.Overwrite)
 	in.mp = persisters.NewMetadataPersister(meta)
 	if err := in.mp.Open(); err != nil {
 		return nil, err
